@@ -55,3 +55,30 @@ package withstack
 //@ func GetReportableStackTrace
 //@   props C15
 //@   trusted "result unconstrained: nil or some stack trace object (frames content: parser/runtime, not decided)"
+
+// ---- stack conversion / one-line source (C15, C11) ----
+//@ func parsePrintedStack
+//@   props C15
+//@   trusted "parser of the printed stack text (element writes into a fresh frame slice; outside the executor's subset): returns a new, non-nil stack trace object"
+//@   ensures result != nil
+
+//@ func convertPkgStack
+//@   props C15 C11
+//@   ensures (result == nil) == (len(st) == 0)
+
+// what the printed-stack parser returns, named (the same parser reads a local stack, after
+// printing it, and the printed stack received from the network: C11 relies on that symmetry)
+//@ spec func psFile(s string) string
+//@ spec func psLine(s string) int
+//@ spec func psFn(s string) string
+//@ spec func psOk(s string) bool
+
+//@ func getOneLineSourceFromPrintedStack
+//@   props C11
+//@   trusted "naming only: the results are deterministic functions of the printed stack text"
+//@   ensures file == psFile(st) && line == psLine(st) && fn == psFn(st) && ok == psOk(st)
+
+//@ func getOneLineSourceFromPkgStack
+//@   props C11 C15
+//@   ensures len(st) == 0 ==> !ok
+//@   ensures len(st) > 0 ==> (exists s string :: file == psFile(s) && line == psLine(s) && fn == psFn(s) && ok == psOk(s))
